@@ -38,7 +38,8 @@ structure Cfg where
   rejectUnimplEncrypt : Bool
   /-- proposed_fixes/02: attribute names must normalise to an exported Go identifier -/
   rejectBadIdent : Bool
-  /-- proposed_fixes/02: vendor attribute numbers 0..255, vendor numbers 0..2^32-1, VALUE numbers fit the type -/
+  /-- proposed_fixes/02: vendor attribute numbers 0..255, vendor numbers 0..2^32-1, VALUE numbers fit the type;
+      and (fix 07e31b9, found by the second audit) top-level attribute numbers 0..255: the Type octet -/
   rejectRanges : Bool
   /-- proposed_fixes/03: ignored vendor attributes are not emitted -/
   dropIgnoredVendorAttrs : Bool
@@ -269,7 +270,7 @@ def encryptSupported (a : Attribute) : Bool :=
 /-- the `invalid` flag of the validity block; `vendor` selects the vendor-attribute variant -/
 def invalidAttr (cfg : Cfg) (vendor : Bool) (a : Attribute) : Bool :=
   a.oid.length != 1
-  || (cfg.rejectRanges && vendor && (match a.oid with | [n] => n < 0 || n > 255 | _ => false))
+  || (cfg.rejectRanges && (match a.oid with | [n] => n < 0 || n > 255 | _ => false))
   || (a.size.isSome && !stringy a.typ)
   || (match a.encrypt with | some e => e != 1 && e != 2 | none => false)
   || (cfg.rejectUnimplEncrypt && !encryptSupported a)
